@@ -95,6 +95,11 @@ CHECKS = {
    "A generated fork tree of real-PoW blocks is built sequentially; a fresh chain (empty or a copy of the 90-block base chain) is then used at once by peer threads delivering overlapping subsets of the blocks in perturbed orders, header-first threads, reader threads (head, get_block, get_unspent, validate_inputs, get_header_by_height, set_txhashset_roots on candidate children, segmenter) and a compaction thread, while a seeded plan sleeps/yields at the cfg(grin_verif) scheduling points. Every observed head must name a stored block with matching height and work, head work never decreases per reader, reads bracketed by two equal heads must equal the replay model of that head, set_txhashset_roots must reproduce the sequential roots, nothing panics, nothing stalls, and the final head, roots, full unspent scan and validate(false) equal the sequential result. Interleavings are sampled by repetition, not enumerated.",
    "A seed fixes the operation multiset and the perturbation plan, not the OS schedule; a stall is reported as a deadlock only if every unfinished worker is waiting for a lock, otherwise the run is inconclusive (exit 2). No liveness claim.",
    "DESIGN.md §5 C17"),
+ "C11": ("pbt+fuzz", "exploration",
+   "structure-aware mutation of valid encodings (seeded, deterministic) decoded in worker processes with a counting allocator and watchdog; libFuzzer targets with the same oracle in the thorough tier",
+   "549 honest encodings of every message body type, framing, header lists, segments, bitmap segments, Merkle proofs (binary and hex) and proofs of work are mutated field-wise (every length/count field set to boundary and huge values, tag bytes swept, truncation at every offset, byte and bit flips, splices, random tails) plus pure random bytes; ~400k inputs per quick run are decoded through 47 entry points at protocol versions 1, 2, 3, 1000 in worker processes (so that an abort is attributed to the in-flight input), followed by the stateless post-decode checks (validate_read, hydrate, Segment::validate / validate_with against 16 MMR sizes with and without bitmaps, SegmentProof::validate). Oracle: no panic, no abort or signal, no hang (20 s watchdog, confirmed three times alone), largest single allocation <= 4 MiB + 64 x input and peak live <= 16 MiB + 64 x input (constants pinned against honest maximal messages, re-measured every run). Thorough: eight libFuzzer targets running the same decoding core.",
+   "Release arithmetic (overflow checks off), as shipped. Two open findings (body buffered from the announced frame length) are excluded by construction and kept as directed cases.",
+   "DESIGN.md §5 C11"),
 }
 
 NOT_YET = {}
@@ -135,6 +140,8 @@ def main():
         "engines": [
             {"name": "fault", "path": "harness/src/props/c09.rs", "serves_properties": [c["property_id"] for c in checks if c["engine"] == "fault"],
              "kind_free_text": "crash-point enumeration: child processes of the harness binary run a scenario on a copy of a prepared chain directory and abort at the n-th cfg(grin_verif) crash point; a second child reopens and reports JSON; scenarios are generated by proptest strategies"},
+            {"name": "fuzz", "path": "harness/fuzz", "serves_properties": ["C11"],
+             "kind_free_text": "cargo-fuzz / libFuzzer targets (thorough tier of C11 only) that include the decoding core of src/props/c11.rs and carry the same oracle; built on demand with cargo +nightly fuzz build -O, not needed by setup_cmd or any quick tier"},
             {"name": "pbt", "path": "harness/src/engine", "serves_properties": [c["property_id"] for c in checks if c["engine"] != "fault"],
              "kind_free_text": "proptest 1.11 TestRunner used as a library (fixed seed from VERIF_SEED, no persistence, shrinking), plus exhaustive enumeration of small finite domains; reference models in harness/src; failing cases are written to out/<id>/ and replayed with ./check <id> --replay"},
         ],
